@@ -458,6 +458,35 @@ POLICIES = {0: None, 1: lambda e: False, 2: lambda e: True, 3: lambda e: None,
             4: lambda e: (len(e.path) % 2 == 0)}
 
 
+class FakePGP:
+    """deterministic stand-in for gpg, the same function as Exec/Tree.v fake_pgp_sign / fake_pgp_verify"""
+    def verify_file(self, f):
+        import gemato.exceptions as ge
+        import gemato.openpgp as go
+        t = f.read()
+        if '\nFAKESIG ' in t:
+            return go.OpenPGPSignatureData('FAKE', None, None, 'FAKE')
+        raise ge.OpenPGPVerificationFailure('fake: no FAKESIG')
+
+    def clear_sign_file(self, f, outf, keyid=None):
+        import gemato.exceptions as ge
+        kid = keyid if keyid is not None else 'default'
+        if kid == 'bad':
+            raise ge.OpenPGPSigningFailure('fake: no usable secret key')
+        outf.write('-----BEGIN PGP SIGNED MESSAGE-----\nHash: FAKE\n\n' + f.read()
+                   + '-----BEGIN PGP SIGNATURE-----\n\nFAKESIG ' + kid + '\n-----END PGP SIGNATURE-----\n')
+
+    def close(self):
+        pass
+
+
+def fake_clearsign(text, kid='default'):
+    import io
+    out = io.StringIO()
+    FakePGP().clear_sign_file(io.StringIO(text), out, kid)
+    return out.getvalue()
+
+
 STAMP_NS = 1600000000 * 10**9
 LAST_STAMPS = []
 
@@ -471,7 +500,7 @@ def run_impl(base, top, opts, allow_create, allow_xdev, ops, order_key, real_fau
     hashes, sort, wm, fmt, profile, sign, keyid, vpgp = opts
     out = []
     def mk(create):
-        return rl.ManifestRecursiveLoader(os.path.join(base, top), verify_openpgp=bool(vpgp), openpgp_env=None,
+        return rl.ManifestRecursiveLoader(os.path.join(base, top), verify_openpgp=bool(vpgp), openpgp_env=FakePGP(),
                                           sign_openpgp=sign, openpgp_keyid=keyid, hashes=hashes,
                                           allow_create=bool(create), sort=(True if sort else None),
                                           compress_watermark=wm, compress_format=(fmt or None),
